@@ -28,7 +28,7 @@ from symx.core import Q, qconst
 
 logging.disable(logging.CRITICAL)
 
-PROPERTIES = ["C03", "C04", "C05", "C06", "C14"]
+PROPERTIES = ["C03", "C04", "C05", "C06", "C14", "C02", "C11"]
 EXPLANATION = ("HRX: REPEX_state.__init__/initiate_ensembles/load_paths/initiate/prep_md_items/pick_lock/pick/pick_traj_ens/"
                "lock/unlock/swap/add_traj/treat_output/sort_trajstate/prob->inf_retis/write_toml/write_to_pathens and "
                "assign_engines run for real; the random generator, file layer (open/os/make_dirs/PathStorage.output) are "
@@ -362,6 +362,18 @@ def check_invariants(ctx, st, inflight, where, after_treat=False):
     if after_treat:
         for i in idle:
             ctx.check(pat[i][i], "C05:idle-path-sits-where-its-weight-is-nonzero", f"{where} slot {i}")
+    # the cached probability matrix is the one of the current state (C02: what pick() draws from)
+    if PROP in ("C02", "C03", "C05") and idle:
+        try:
+            fresh = st.inf_retis(_qabs(st.state), st._locks)
+            cur = st.prob
+            same = all(bool(fresh[i, j] == cur[i, j]) for i in range(n) for j in range(n))
+        except core.Inconclusive:
+            raise
+        except Exception as e:
+            core.reraise_if_proxy_limitation(e)
+            same = False
+        ctx.check(same, "C02:cached-probability-matrix-belongs-to-the-current-state", where)
     # locked bookkeeping mirrors in-flight jobs
     rec = sorted((sorted(e + st._offset for e in m["ens_nums"]), sorted(str(m["picked"][e]["traj"].path_number)
                                                                          for e in m["ens_nums"])) for m in inflight)
@@ -566,7 +578,9 @@ def restart_roundtrip(ctx, st, world, inflight, k):
     recorded at the stop are re-issued exactly."""
     cfg = copy.deepcopy(world.tomls[-1])
     ctx.check(cfg["current"]["cstep"] == st.cstep and cfg["current"]["traj_num"] == st.config["current"]["traj_num"]
-              and cfg["current"]["active"] == st.live_paths(), "C06:restart-file-records-current-counters",
+              and cfg["current"]["active"] == st.live_paths()
+              and all(p < cfg["current"]["traj_num"] for p in cfg["current"]["active"]),
+              f"{PROP if PROP in ('C04', 'C05', 'C06') else 'C06'}:restart-file-records-current-counters",
               f"{cfg['current']['cstep']} {cfg['current']['active']}")
     cfg["current"]["restarted_from"] = cfg["current"]["cstep"]   # what setup_config adds
     w2 = World()
@@ -602,12 +616,17 @@ def restart_roundtrip(ctx, st, world, inflight, k):
     ctx.check(sorted(st2.traj_data) == sorted(st.traj_data), "C04:restart-holds-exactly-the-live-paths")
     # re-issue: the initiation loop must hand out exactly the recorded in-flight (ensemble, path) pairs first
     st2.config["simulation"]["steps"] = st2.cstep + 10
-    reissued = []
+    reissued, issued2 = [], []
     try:
         nrec = len(st2.locked0)
         md0 = md0_of(st2)
         while len(reissued) < nrec and st2.initiate():
             md = st2.prep_md_items(copy.deepcopy(md0))
+            issued2.append(md)
+            if len(md["ens_nums"]) == 2:
+                # run_md pairs the returned paths with picked.keys(): a zero swap must be handed over as ([0-], [0+])
+                ctx.check(list(md["picked"].keys()) == [-1, 0] and md["ens_nums"] == [-1, 0],
+                          "C11:re-issued-zero-swap-keeps-the-([0-],[0+])-order", f"{list(md['picked'].keys())}")
             reissued.append(sorted((e + 1, md["picked"][e]["traj"].path_number) for e in md["ens_nums"]))
         if nrec:
             ctx.check([st2._locks[i] for i in range(st.n)] == [st._locks[i] for i in range(st.n)] and
@@ -624,6 +643,33 @@ def restart_roundtrip(ctx, st, world, inflight, k):
     if nrec:
         ctx.check(norm(st2.locked) == norm(st.locked), "C06:re-issued-jobs-stay-on-record-for-the-next-restart-file",
                   f"{st2.locked} vs {st.locked}")
+    # one of the re-issued jobs completes (rejected) on the restarted state: its record must leave the locked list, and the
+    # restart file written then must again mirror exactly what is in flight
+    if nrec and issued2:
+        try:
+            m2 = issued2.pop(0)
+            m2["status"] = "REJ"
+            m2["moves"], m2["trial_len"], m2["trial_op"], m2["generated"] = ["sh"], [3], [(0.0, 1.0)], [("sh", 0, 0, 0)]
+            st2.config["current"]["cstep"] = st2.cstep + 1
+            st2.treat_output(m2)
+            # self.locked holds ensemble numbers relative to [0-] = -1; the restart file holds slot indices (offset added)
+            rel = norm([(list(mm["ens_nums"]), [str(mm["picked"][e]["traj"].path_number) for e in mm["ens_nums"]]) for mm in issued2])
+            ab = norm([([e + st2._offset for e in mm["ens_nums"]], [str(mm["picked"][e]["traj"].path_number) for e in mm["ens_nums"]])
+                       for mm in issued2])
+            ctx.check(norm(st2.locked) == rel, "C06:restart-file-after-a-re-issued-job-finished-lists-only-jobs-in-flight",
+                      f"locked {st2.locked} in flight {rel}")
+            toml2 = w2.tomls[-1]["current"]["locked"]
+            ctx.check(norm(toml2) == ab, "C05:restart-file-written-after-a-restart-lists-exactly-the-jobs-in-flight",
+                      f"{toml2} vs {ab}")
+        except core.Inconclusive:
+            raise
+        except (core._Abort, core._Stop, core._Skip):
+            raise
+        except Exception as e:
+            core.reraise_if_proxy_limitation(e)
+            _install_world(saved_world)
+            ctx.fail(f"{PROP if PROP in ('C05', 'C06') else 'C06'}:step-after-restart-completes", _tb(e))
+            return
     want = sorted(sorted((e + 1, m["picked"][e]["traj"].path_number) for e in m["ens_nums"]) for m in inflight)
     ctx.check(sorted(reissued) == want, "C06:restart-re-issues-exactly-the-in-flight-jobs", f"{reissued} vs {want}")
     ctx.cover("restart:roundtrip")
@@ -703,6 +749,21 @@ def _stable_hash(x):
 
 
 def instances(tier, prop):
+    if prop in ("C02", "C11"):
+        # only one clause of these properties lives in the scheduler (C02: the cached matrix; C11: the order in which a
+        # re-issued zero swap is handed over): a subset of the inductive-step instances
+        sub = []
+        for s in _instances(tier, "C05" if prop == "C11" else "C03"):
+            if s["kind"] != "ind" or s["k"] > (3 if tier == "quick" else 4) or s.get("cap") or s.get("engines"):
+                continue
+            if prop == "C11" and not any(len(j) == 2 for j in s["jobs"]):
+                continue
+            sub.append(dict(s, prop=prop, restart=(prop == "C11"), numbering=("minushigh" if prop == "C11" else s["numbering"])))
+        return sub
+    return _instances(tier, prop)
+
+
+def _instances(tier, prop):
     out = []
     quick = tier == "quick"
     kmax = 4 if quick else 5
@@ -768,6 +829,10 @@ EXPECT = ["restart:with-cap", "ind:accepted", "ind:rejected", "ind:zero-swap-in-
 
 
 def expect(tier, prop):
+    if prop == "C02":
+        return ["ind:accepted", "ind:rejected", "sort:swapped"]
+    if prop == "C11":
+        return ["restart:with-in-flight", "ind:zero-swap-in-flight"]
     e = list(EXPECT)
     if prop not in ("C04", "C05", "C06"):
         e = [x for x in e if x != "restart:with-cap"]
@@ -809,10 +874,12 @@ def _ind(ctx, sh):
     st = new_state(cfg, world)
     n = st.n
     # ---- arbitrary arrangement (all idle), set directly
-    base = 0 if sh["numbering"] == "initial" else 3 * k
+    base = 0 if sh["numbering"] in ("initial", "minushigh") else 3 * k
     wf = "wf" in moves[1:]
     wfpat = ctx.choice(2, "wf-frame-pattern") if wf else 0
-    paths = [mk_minus_path(k, base + 0)]
+    # 'minushigh': the minus path carries the highest number (it was replaced most recently)
+    mh = sh["numbering"] == "minushigh"
+    paths = [mk_minus_path(k, base + (k if mh else 0))]
     for j in range(1, k):
         paths.append(mk_plus_path(k, arr[j - 1], 1 + ((j + wfpat) % 2 if wf else 0), base + j))
     for slot, p in enumerate(paths):
@@ -824,7 +891,7 @@ def _ind(ctx, sh):
         st.traj_data[p.path_number] = {"ens_save_idx": slot, "max_op": p.ordermax, "min_op": p.ordermin, "length": p.length,
                                        "adress": p.adress, "weights": p.weights, "frac": None}
     st._last_prob = None
-    cfg["current"]["traj_num"] = base + k + ctx.choice(2, "traj_num-gap")
+    cfg["current"]["traj_num"] = base + k + (1 if mh else 0) + ctx.choice(2, "traj_num-gap")
     cfg["current"]["active"] = st.live_paths()
     cfg["current"]["cstep"] = 5
     _fill_fracs(ctx, st)
